@@ -4,60 +4,60 @@ From Coq Require Import List ZArith. Import ListNotations.
 From Molli Require Import Model.Alias.
 
 Definition table : list entry := [
-  (KPromolecule, (RCtor KPromolecule), (mk_row Copied Copied Copied RSelf None AAbsent AAbsent AAbsent Shared true));
-  (KPromolecule, (RCtor KConnectivity), (mk_row Copied Copied Copied RSelf (Some (mk_brow Copied Copied Copied RSelf ERemap)) AAbsent AAbsent AAbsent Shared true));
-  (KPromolecule, (RCtor KGeometry), (mk_row Copied Copied Copied RSelf None AGiven AAbsent AAbsent Shared true));
-  (KPromolecule, (RCtor KStructure), (mk_row Copied Copied Copied RSelf (Some (mk_brow Copied Copied Copied RSelf ERemap)) AGiven AAbsent AAbsent Shared true));
-  (KPromolecule, (RCtor KMolecule), (mk_row Copied Copied Copied RSelf (Some (mk_brow Copied Copied Copied RSelf ERemap)) AGiven AGiven AAbsent Shared true));
-  (KPromolecule, (RCtor KEnsemble), (mk_row Copied Copied Copied RSelf (Some (mk_brow Copied Copied Copied RSelf ERemap)) AGiven AGiven AGiven Shared true));
+  (KPromolecule, (RCtor KPromolecule), (mk_row Copied Copied Copied RSelf None AAbsent AAbsent AAbsent Copied true));
+  (KPromolecule, (RCtor KConnectivity), (mk_row Copied Copied Copied RSelf (Some (mk_brow Copied Copied Copied RSelf ERemap)) AAbsent AAbsent AAbsent Copied true));
+  (KPromolecule, (RCtor KGeometry), (mk_row Copied Copied Copied RSelf None AGiven AAbsent AAbsent Copied true));
+  (KPromolecule, (RCtor KStructure), (mk_row Copied Copied Copied RSelf (Some (mk_brow Copied Copied Copied RSelf ERemap)) AGiven AAbsent AAbsent Copied true));
+  (KPromolecule, (RCtor KMolecule), (mk_row Copied Copied Copied RSelf (Some (mk_brow Copied Copied Copied RSelf ERemap)) AGiven AGiven AAbsent Copied true));
+  (KPromolecule, (RCtor KEnsemble), (mk_row Copied Copied Copied RSelf (Some (mk_brow Copied Copied Copied RSelf ERemap)) AGiven AGiven AGiven Copied true));
   (KPromolecule, RPickle, (mk_row Copied Copied Copied RSelf None AAbsent AAbsent AAbsent Copied true));
   (KPromolecule, RDeepcopy, (mk_row Copied Copied Copied RSelf None AAbsent AAbsent AAbsent Copied true));
-  (KConnectivity, (RCtor KPromolecule), (mk_row Copied Copied Copied RSelf None AAbsent AAbsent AAbsent Shared true));
-  (KConnectivity, (RCtor KConnectivity), (mk_row Copied Copied Copied RSelf (Some (mk_brow Copied Copied Copied RSelf ERemap)) AAbsent AAbsent AAbsent Shared true));
-  (KConnectivity, (RCtor KGeometry), (mk_row Copied Copied Copied RSelf None AGiven AAbsent AAbsent Shared true));
-  (KConnectivity, (RCtor KStructure), (mk_row Copied Copied Copied RSelf (Some (mk_brow Copied Copied Copied RSelf ERemap)) AGiven AAbsent AAbsent Shared true));
-  (KConnectivity, (RCtor KMolecule), (mk_row Copied Copied Copied RSelf (Some (mk_brow Copied Copied Copied RSelf ERemap)) AGiven AGiven AAbsent Shared true));
-  (KConnectivity, (RCtor KEnsemble), (mk_row Copied Copied Copied RSelf (Some (mk_brow Copied Copied Copied RSelf ERemap)) AGiven AGiven AGiven Shared true));
+  (KConnectivity, (RCtor KPromolecule), (mk_row Copied Copied Copied RSelf None AAbsent AAbsent AAbsent Copied true));
+  (KConnectivity, (RCtor KConnectivity), (mk_row Copied Copied Copied RSelf (Some (mk_brow Copied Copied Copied RSelf ERemap)) AAbsent AAbsent AAbsent Copied true));
+  (KConnectivity, (RCtor KGeometry), (mk_row Copied Copied Copied RSelf None AGiven AAbsent AAbsent Copied true));
+  (KConnectivity, (RCtor KStructure), (mk_row Copied Copied Copied RSelf (Some (mk_brow Copied Copied Copied RSelf ERemap)) AGiven AAbsent AAbsent Copied true));
+  (KConnectivity, (RCtor KMolecule), (mk_row Copied Copied Copied RSelf (Some (mk_brow Copied Copied Copied RSelf ERemap)) AGiven AGiven AAbsent Copied true));
+  (KConnectivity, (RCtor KEnsemble), (mk_row Copied Copied Copied RSelf (Some (mk_brow Copied Copied Copied RSelf ERemap)) AGiven AGiven AGiven Copied true));
   (KConnectivity, RPickle, (mk_row Copied Copied Copied RSelf (Some (mk_brow Copied Copied Copied RSelf ERemap)) AAbsent AAbsent AAbsent Copied true));
   (KConnectivity, RDeepcopy, (mk_row Copied Copied Copied RSelf (Some (mk_brow Copied Copied Copied RSelf ERemap)) AAbsent AAbsent AAbsent Copied true));
-  (KGeometry, (RCtor KPromolecule), (mk_row Copied Copied Copied RSelf None AAbsent AAbsent AAbsent Shared true));
-  (KGeometry, (RCtor KConnectivity), (mk_row Copied Copied Copied RSelf (Some (mk_brow Copied Copied Copied RSelf ERemap)) AAbsent AAbsent AAbsent Shared true));
-  (KGeometry, (RCtor KGeometry), (mk_row Copied Copied Copied RSelf None ACopied AAbsent AAbsent Shared true));
-  (KGeometry, (RCtor KStructure), (mk_row Copied Copied Copied RSelf (Some (mk_brow Copied Copied Copied RSelf ERemap)) ACopied AAbsent AAbsent Shared true));
-  (KGeometry, (RCtor KMolecule), (mk_row Copied Copied Copied RSelf (Some (mk_brow Copied Copied Copied RSelf ERemap)) ACopied AGiven AAbsent Shared true));
-  (KGeometry, (RCtor KEnsemble), (mk_row Copied Copied Copied RSelf (Some (mk_brow Copied Copied Copied RSelf ERemap)) AGiven AGiven AGiven Shared true));
+  (KGeometry, (RCtor KPromolecule), (mk_row Copied Copied Copied RSelf None AAbsent AAbsent AAbsent Copied true));
+  (KGeometry, (RCtor KConnectivity), (mk_row Copied Copied Copied RSelf (Some (mk_brow Copied Copied Copied RSelf ERemap)) AAbsent AAbsent AAbsent Copied true));
+  (KGeometry, (RCtor KGeometry), (mk_row Copied Copied Copied RSelf None ACopied AAbsent AAbsent Copied true));
+  (KGeometry, (RCtor KStructure), (mk_row Copied Copied Copied RSelf (Some (mk_brow Copied Copied Copied RSelf ERemap)) ACopied AAbsent AAbsent Copied true));
+  (KGeometry, (RCtor KMolecule), (mk_row Copied Copied Copied RSelf (Some (mk_brow Copied Copied Copied RSelf ERemap)) ACopied AGiven AAbsent Copied true));
+  (KGeometry, (RCtor KEnsemble), (mk_row Copied Copied Copied RSelf (Some (mk_brow Copied Copied Copied RSelf ERemap)) AGiven AGiven AGiven Copied true));
   (KGeometry, RPickle, (mk_row Copied Copied Copied RSelf None ACopied AAbsent AAbsent Copied true));
   (KGeometry, RDeepcopy, (mk_row Copied Copied Copied RSelf None ACopied AAbsent AAbsent Copied true));
-  (KStructure, (RCtor KPromolecule), (mk_row Copied Copied Copied RSelf None AAbsent AAbsent AAbsent Shared true));
-  (KStructure, (RCtor KConnectivity), (mk_row Copied Copied Copied RSelf (Some (mk_brow Copied Copied Copied RSelf ERemap)) AAbsent AAbsent AAbsent Shared true));
-  (KStructure, (RCtor KGeometry), (mk_row Copied Copied Copied RSelf None ACopied AAbsent AAbsent Shared true));
-  (KStructure, (RCtor KStructure), (mk_row Copied Copied Copied RSelf (Some (mk_brow Copied Copied Copied RSelf ERemap)) ACopied AAbsent AAbsent Shared true));
-  (KStructure, (RCtor KMolecule), (mk_row Copied Copied Copied RSelf (Some (mk_brow Copied Copied Copied RSelf ERemap)) ACopied AGiven AAbsent Shared true));
-  (KStructure, (RCtor KEnsemble), (mk_row Copied Copied Copied RSelf (Some (mk_brow Copied Copied Copied RSelf ERemap)) AGiven AGiven AGiven Shared true));
+  (KStructure, (RCtor KPromolecule), (mk_row Copied Copied Copied RSelf None AAbsent AAbsent AAbsent Copied true));
+  (KStructure, (RCtor KConnectivity), (mk_row Copied Copied Copied RSelf (Some (mk_brow Copied Copied Copied RSelf ERemap)) AAbsent AAbsent AAbsent Copied true));
+  (KStructure, (RCtor KGeometry), (mk_row Copied Copied Copied RSelf None ACopied AAbsent AAbsent Copied true));
+  (KStructure, (RCtor KStructure), (mk_row Copied Copied Copied RSelf (Some (mk_brow Copied Copied Copied RSelf ERemap)) ACopied AAbsent AAbsent Copied true));
+  (KStructure, (RCtor KMolecule), (mk_row Copied Copied Copied RSelf (Some (mk_brow Copied Copied Copied RSelf ERemap)) ACopied AGiven AAbsent Copied true));
+  (KStructure, (RCtor KEnsemble), (mk_row Copied Copied Copied RSelf (Some (mk_brow Copied Copied Copied RSelf ERemap)) AGiven AGiven AGiven Copied true));
   (KStructure, RPickle, (mk_row Copied Copied Copied RSelf (Some (mk_brow Copied Copied Copied RSelf ERemap)) ACopied AAbsent AAbsent Copied true));
   (KStructure, RDeepcopy, (mk_row Copied Copied Copied RSelf (Some (mk_brow Copied Copied Copied RSelf ERemap)) ACopied AAbsent AAbsent Copied true));
-  (KMolecule, (RCtor KPromolecule), (mk_row Copied Copied Copied RSelf None AAbsent AAbsent AAbsent Shared true));
-  (KMolecule, (RCtor KConnectivity), (mk_row Copied Copied Copied RSelf (Some (mk_brow Copied Copied Copied RSelf ERemap)) AAbsent AAbsent AAbsent Shared true));
-  (KMolecule, (RCtor KGeometry), (mk_row Copied Copied Copied RSelf None ACopied AAbsent AAbsent Shared true));
-  (KMolecule, (RCtor KStructure), (mk_row Copied Copied Copied RSelf (Some (mk_brow Copied Copied Copied RSelf ERemap)) ACopied AAbsent AAbsent Shared true));
-  (KMolecule, (RCtor KMolecule), (mk_row Copied Copied Copied RSelf (Some (mk_brow Copied Copied Copied RSelf ERemap)) ACopied ACopied AAbsent Shared true));
-  (KMolecule, (RCtor KEnsemble), (mk_row Copied Copied Copied RSelf (Some (mk_brow Copied Copied Copied RSelf ERemap)) AGiven AGiven AGiven Shared true));
+  (KMolecule, (RCtor KPromolecule), (mk_row Copied Copied Copied RSelf None AAbsent AAbsent AAbsent Copied true));
+  (KMolecule, (RCtor KConnectivity), (mk_row Copied Copied Copied RSelf (Some (mk_brow Copied Copied Copied RSelf ERemap)) AAbsent AAbsent AAbsent Copied true));
+  (KMolecule, (RCtor KGeometry), (mk_row Copied Copied Copied RSelf None ACopied AAbsent AAbsent Copied true));
+  (KMolecule, (RCtor KStructure), (mk_row Copied Copied Copied RSelf (Some (mk_brow Copied Copied Copied RSelf ERemap)) ACopied AAbsent AAbsent Copied true));
+  (KMolecule, (RCtor KMolecule), (mk_row Copied Copied Copied RSelf (Some (mk_brow Copied Copied Copied RSelf ERemap)) ACopied AGiven AAbsent Copied true));
+  (KMolecule, (RCtor KEnsemble), (mk_row Copied Copied Copied RSelf (Some (mk_brow Copied Copied Copied RSelf ERemap)) AGiven AGiven AGiven Copied true));
   (KMolecule, RPickle, (mk_row Copied Copied Copied RSelf (Some (mk_brow Copied Copied Copied RSelf ERemap)) ACopied ACopied AAbsent Copied true));
   (KMolecule, RDeepcopy, (mk_row Copied Copied Copied RSelf (Some (mk_brow Copied Copied Copied RSelf ERemap)) ACopied ACopied AAbsent Copied true));
-  (KEnsemble, (RCtor KPromolecule), (mk_row Copied Copied Copied RSelf None AAbsent AAbsent AAbsent Shared true));
-  (KEnsemble, (RCtor KConnectivity), (mk_row Copied Copied Copied RSelf (Some (mk_brow Copied Copied Copied RSelf ERemap)) AAbsent AAbsent AAbsent Shared true));
-  (KEnsemble, (RCtor KGeometry), (mk_row Copied Copied Copied RSelf None AGiven AAbsent AAbsent Shared true));
-  (KEnsemble, (RCtor KStructure), (mk_row Copied Copied Copied RSelf (Some (mk_brow Copied Copied Copied RSelf ERemap)) AGiven AAbsent AAbsent Shared true));
-  (KEnsemble, (RCtor KMolecule), (mk_row Copied Copied Copied RSelf (Some (mk_brow Copied Copied Copied RSelf ERemap)) AGiven AGiven AAbsent Shared true));
-  (KEnsemble, (RCtor KEnsemble), (mk_row Copied Copied Copied RSelf (Some (mk_brow Copied Copied Copied RSelf ERemap)) ACopied ACopied ACopied Shared true));
+  (KEnsemble, (RCtor KPromolecule), (mk_row Copied Copied Copied RSelf None AAbsent AAbsent AAbsent Copied true));
+  (KEnsemble, (RCtor KConnectivity), (mk_row Copied Copied Copied RSelf (Some (mk_brow Copied Copied Copied RSelf ERemap)) AAbsent AAbsent AAbsent Copied true));
+  (KEnsemble, (RCtor KGeometry), (mk_row Copied Copied Copied RSelf None AGiven AAbsent AAbsent Copied true));
+  (KEnsemble, (RCtor KStructure), (mk_row Copied Copied Copied RSelf (Some (mk_brow Copied Copied Copied RSelf ERemap)) AGiven AAbsent AAbsent Copied true));
+  (KEnsemble, (RCtor KMolecule), (mk_row Copied Copied Copied RSelf (Some (mk_brow Copied Copied Copied RSelf ERemap)) AGiven AGiven AAbsent Copied true));
+  (KEnsemble, (RCtor KEnsemble), (mk_row Copied Copied Copied RSelf (Some (mk_brow Copied Copied Copied RSelf ERemap)) ACopied ACopied ACopied Copied true));
   (KEnsemble, RPickle, (mk_row Copied Copied Copied RSelf (Some (mk_brow Copied Copied Copied RSelf ERemap)) ACopied ACopied ACopied Copied true));
   (KEnsemble, RDeepcopy, (mk_row Copied Copied Copied RSelf (Some (mk_brow Copied Copied Copied RSelf ERemap)) ACopied ACopied ACopied Copied true));
-  (KConformer, (RCtor KPromolecule), (mk_row Copied Copied Copied RSelf None AAbsent AAbsent AAbsent Shared true));
-  (KConformer, (RCtor KConnectivity), (mk_row Copied Copied Copied RSelf (Some (mk_brow Copied Copied Copied RSelf ERemap)) AAbsent AAbsent AAbsent Shared true));
-  (KConformer, (RCtor KGeometry), (mk_row Copied Copied Copied RSelf None ACopied AAbsent AAbsent Shared true));
-  (KConformer, (RCtor KStructure), (mk_row Copied Copied Copied RSelf (Some (mk_brow Copied Copied Copied RSelf ERemap)) ACopied AAbsent AAbsent Shared true));
-  (KConformer, (RCtor KMolecule), (mk_row Copied Copied Copied RSelf (Some (mk_brow Copied Copied Copied RSelf ERemap)) ACopied ACopied AAbsent Shared true));
-  (KConformer, (RCtor KEnsemble), (mk_row Copied Copied Copied RSelf (Some (mk_brow Copied Copied Copied RSelf ERemap)) AGiven AGiven AGiven Shared true));
+  (KConformer, (RCtor KPromolecule), (mk_row Copied Copied Copied RSelf None AAbsent AAbsent AAbsent Copied true));
+  (KConformer, (RCtor KConnectivity), (mk_row Copied Copied Copied RSelf (Some (mk_brow Copied Copied Copied RSelf ERemap)) AAbsent AAbsent AAbsent Copied true));
+  (KConformer, (RCtor KGeometry), (mk_row Copied Copied Copied RSelf None ACopied AAbsent AAbsent Copied true));
+  (KConformer, (RCtor KStructure), (mk_row Copied Copied Copied RSelf (Some (mk_brow Copied Copied Copied RSelf ERemap)) ACopied AAbsent AAbsent Copied true));
+  (KConformer, (RCtor KMolecule), (mk_row Copied Copied Copied RSelf (Some (mk_brow Copied Copied Copied RSelf ERemap)) ACopied AGiven AAbsent Copied true));
+  (KConformer, (RCtor KEnsemble), (mk_row Copied Copied Copied RSelf (Some (mk_brow Copied Copied Copied RSelf ERemap)) AGiven AGiven AGiven Copied true));
   (KConformer, RPickle, (mk_row Copied Copied Copied RSelf (Some (mk_brow Copied Copied Copied RSelf ERemap)) ACopied ACopied ACopied Copied true));
   (KConformer, RDeepcopy, (mk_row Copied Copied Copied RSelf (Some (mk_brow Copied Copied Copied RSelf ERemap)) ACopied ACopied ACopied Copied true));
   (KStructure, (RConcat KStructure 2), (mk_row Copied Copied Copied RSelf (Some (mk_brow Copied Copied Copied RSelf ERemap)) ACopied AAbsent AAbsent Reset false));
@@ -66,8 +66,8 @@ Definition table : list entry := [
   (KMolecule, (RConcat KMolecule 3), (mk_row Copied Copied Copied RSelf (Some (mk_brow Copied Copied Copied RSelf ERemap)) ACopied ACopied AAbsent Reset false));
   (KStructure, (RJoin KStructure), (mk_row Copied Copied Copied RSelf (Some (mk_brow Copied Copied Copied RSelf ERemap)) AGiven AAbsent AAbsent Reset false));
   (KMolecule, (RJoin KMolecule), (mk_row Copied Copied Copied RSelf (Some (mk_brow Copied Copied Copied RSelf ERemap)) AGiven AGiven AAbsent Reset false));
-  (KMolecule, REnsFromList, (mk_row Copied Copied Copied RSelf (Some (mk_brow Copied Copied Copied RSelf ERemap)) AGiven AGiven AGiven Shared true));
-  (KConformer, REnsFromList, (mk_row Copied Copied Copied RSelf (Some (mk_brow Copied Copied Copied RSelf ERemap)) AGiven AGiven AGiven Shared true));
+  (KMolecule, REnsFromList, (mk_row Copied Copied Copied RSelf (Some (mk_brow Copied Copied Copied RSelf ERemap)) AGiven AGiven AGiven Copied true));
+  (KConformer, REnsFromList, (mk_row Copied Copied Copied RSelf (Some (mk_brow Copied Copied Copied RSelf ERemap)) AGiven AGiven AGiven Copied true));
   (KAtom, REvolve, (mk_row Copied Copied Copied RKeep None AAbsent AAbsent AAbsent Copied true));
   (KAtom, RPickle, (mk_row Copied Copied Copied RNone None AAbsent AAbsent AAbsent Copied true));
   (KAtom, RDeepcopy, (mk_row Copied Copied Copied RNone None AAbsent AAbsent AAbsent Copied true));
